@@ -605,6 +605,75 @@ def bystander_cases(ctx, hook):
     return n
 
 
+def backlog_cases(ctx, hook):
+    """Nobody read the port for a while: tens of thousands of messages taken in and not yet handed out.  After close() - and
+    before - poll, non-blocking receive, iter_pending and iteration hand out every one of them, oldest first."""
+    from mido.ports import BaseIOPort
+    n = 0
+
+    class Loop(BaseIOPort):
+        def _send(self, msg):
+            self._parser.feed(msg.bytes())
+
+    def numbered(i):
+        return Message('pitchwheel', channel=i % 16, pitch=(i // 16) % 16384 - 8192)
+
+    for size in (16383, 16385, 40000, 70000):
+        for kind in ('echo', 'loop', 'ioport', 'multi'):
+            for drain in ('poll-after-close', 'iterate-after-close', 'iter_pending-open', 'receive-nb-open'):
+                if (size > 20000) and drain not in ('poll-after-close', 'iterate-after-close') and kind != 'echo':
+                    continue
+                case = {'kind': 'backlog', 'size': size, 'port': kind, 'drain': drain}
+                hook.arm({}, None, None)
+                try:
+                    if kind == 'echo':
+                        port = feed = EchoPort('e')
+                    elif kind == 'loop':
+                        port = feed = Loop('l')
+                    elif kind == 'ioport':
+                        feed = Loop('l')
+                        port = IOPort(feed, EchoPort('o'))
+                    else:
+                        feed = EchoPort('m')
+                        port = MultiPort([feed])
+                    for i in range(size):
+                        feed.send(numbered(i))
+                    if kind == 'multi':
+                        first = port.poll()             # takes everything in from the member
+                        got = [first]
+                    else:
+                        got = []
+                    if drain.endswith('after-close'):
+                        port.close()
+                    if drain == 'poll-after-close':
+                        while True:
+                            m = port.poll()
+                            if m is None:
+                                break
+                            got.append(m)
+                    elif drain == 'iterate-after-close':
+                        got += list(port) if kind != 'echo' else list(port.iter_pending())
+                    elif drain == 'iter_pending-open':
+                        got += list(port.iter_pending())
+                    else:
+                        while True:
+                            m = port.receive(block=False)
+                            if m is None:
+                                break
+                            got.append(m)
+                    ok = len(got) == size and all(g.channel == i % 16 and g.pitch == (i // 16) % 16384 - 8192 for i, g in enumerate(got))
+                    ctx.check('results == lifecycle model', ok, 'backlog:messages-lost-or-reordered', case,
+                              lambda: {'handed_out': len(got), 'taken_in': size, 'first': repr(got[0])[:80] if got else None})
+                    port.closed = True
+                    feed.closed = True
+                except HarnessAbort as exc:
+                    ctx.check('blocking call bounded sleeps', False, 'backlog:never-returns', case, str(exc))
+                except Exception as exc:
+                    ctx.fail('results == lifecycle model', f'backlog:{type(exc).__name__}', case, f'{type(exc).__name__}: {exc}')
+                n += 1
+    return n
+
+
 def long_idle_cases(ctx, hook):
     """A blocking receive that has been polling an idle port for thousands of rounds returns as
     promptly as a fresh one: within 2 further sleep() calls and without any other waiting."""
@@ -1800,6 +1869,11 @@ def run(ctx):
             ctx.nontrivial(None, k)
             ctx.extra('socket_partial_tail_cases', k)
             n += k
+        if ctx.shard == 8 % ctx.nshards:
+            k = backlog_cases(ctx, hook)
+            ctx.nontrivial(None, k)
+            ctx.extra('backlog_cases', k)
+            n += k
         if ctx.shard == 6 % ctx.nshards:
             k = bystander_cases(ctx, hook)
             ctx.nontrivial(None, k)
@@ -1873,6 +1947,8 @@ def replay(ctx, case):
             long_idle_cases(ctx, hook)
         elif k == 'bystander':
             bystander_cases(ctx, hook)
+        elif k == 'backlog':
+            backlog_cases(ctx, hook)
         elif k == 'socket-partial-tail':
             socket_partial_tail_cases(ctx, hook)
         elif k == 'socket-lifecycle':
